@@ -139,22 +139,22 @@ lemma deleteSet(s []byte, r []byte, pos int, v int)
 
 func (*SortedSliceSet).Add
   requires set != nil && sortedStrict(set.elems)
-  apply_exit insertSet(old(str(set.elems)), str(set.elems), i, v) when !ok
-  apply_exit sameSeqSameSet(old(str(set.elems)), str(set.elems)) when ok
+  apply_exit insertSet(old(str(set.elems)), str(set.elems), old(rankIn(set.elems, v)), v) when !old(memberOf(set.elems, v))
+  apply_exit sameSeqSameSet(old(str(set.elems)), str(set.elems)) when old(memberOf(set.elems, v))
   ensures inv: sortedStrict(set.elems)
   ensures grows_by_at_most_one: len(set.elems) <= old(len(set.elems)) + 1 && len(set.elems) >= old(len(set.elems))
-  ensures present_unchanged: local(ok) ==> set.elems == old(set.elems) && (forall k in 0..len(set.elems): set.elems[k] == old(set.elems[k]))
-  ensures only_v_new: !local(ok) ==> (forall k in 0..len(set.elems): set.elems[k] == v || (let x = set.elems[k] in old(memberOf(set.elems, x))))
+  ensures present_unchanged: old(memberOf(set.elems, v)) ==> set.elems == old(set.elems) && (forall k in 0..len(set.elems): set.elems[k] == old(set.elems[k]))
+  ensures only_v_new: !old(memberOf(set.elems, v)) ==> (forall k in 0..len(set.elems): set.elems[k] == v || (let x = set.elems[k] in old(memberOf(set.elems, x))))
   ensures keeps_old: forall k in 0..old(len(set.elems)): memberOf(set.elems, old(set.elems[k]))
   ensures has_v: memberOf(set.elems, v)
 
 func (*SortedSliceSet).Delete
   requires set != nil && sortedStrict(set.elems)
-  apply_exit deleteSet(old(str(set.elems)), str(set.elems), i, v) when ok
+  apply_exit deleteSet(old(str(set.elems)), str(set.elems), old(rankIn(set.elems, v)), v) when old(memberOf(set.elems, v))
   ensures inv: sortedStrict(set.elems)
   ensures only_old: forall k in 0..len(set.elems): set.elems[k] != v && (let x = set.elems[k] in old(memberOf(set.elems, x)))
   ensures keeps_others: forall k in 0..old(len(set.elems)): old(set.elems[k]) == v || memberOf(set.elems, old(set.elems[k]))
-  ensures absent_unchanged: !local(ok) ==> set.elems == old(set.elems) && (forall k in 0..len(set.elems): set.elems[k] == old(set.elems[k]))
+  ensures absent_unchanged: !old(memberOf(set.elems, v)) ==> set.elems == old(set.elems) && (forall k in 0..len(set.elems): set.elems[k] == old(set.elems[k]))
   ensures v_gone: !memberOf(set.elems, v)
 
 func (*SortedSliceSet).Has
@@ -233,6 +233,8 @@ func (*MapSet).Clone
 
 func (*MapSet).Equal
   ensures nil_cases: (set == nil || other == nil) ==> (ok <==> (set == nil && other == nil))
+  ensures same_keys: set != nil && other != nil ==>
+    (ok <==> (len(set.m) == len(other.m) && (forall x: haskey(set.m, x) <==> haskey(other.m, x))))
 
 func (*MapSet).Range
   ensures nil_no_calls: set == nil ==> cbcalls() == 0
